@@ -139,6 +139,16 @@ pub fn corpus(seed: u64, big: bool) -> Vec<Seed> {
             for it in t.items.iter_mut() {
                 it.2.truncate(40);
             }
+            // text items are opaque payloads to the mutators: the ones with a mdir handler get a
+            // year text with multi-byte characters around byte 4 and a title that starts with a
+            // byte order mark (what slicing or trimming accessors stumble over)
+            if i % 6 != 3 {
+                t.items.retain(|it| &it.0 != b"\xa9day");
+                let year: &str = ["\u{4ee4}\u{548c}2\u{5e74}5\u{6708}", "20\u{e9}8-05", "\u{ff12}\u{ff10}\u{ff10}\u{ff18}", "2\u{e9}08"][(i / 6) % 4];
+                t.items.push((*b"\xa9day", 1, year.as_bytes().to_vec()));
+                t.items.push((*b"\xa9nam", 1, "\u{feff}Title \u{65e5}".as_bytes().to_vec()));
+                t.large_items = Vec::new();
+            }
             m.tags = Some(t);
         }
         let fl = gen_file_layout(&mut rng, &m);
@@ -503,8 +513,8 @@ pub fn mutate_havoc(seed: &Seed, others: &[Seed], rng: &mut Rng) -> (Vec<u8>, Mu
 // amplifier families (C07): a hostile structure replicated k times
 // ---------------------------------------------------------------------------------------
 
-pub const AMPLIFIERS: [&str; 18] = [
-    "many_containers_with_tiny_child", "many_traks_many_moofs", "many_stsd_esds_overrun", "many_trafs_long_run",
+pub const AMPLIFIERS: [&str; 19] = [
+    "many_stsd_huge_entry_count", "many_containers_with_tiny_child", "many_traks_many_moofs", "many_stsd_esds_overrun", "many_trafs_long_run",
     "zero_size_child_in_moov", "zero_size_child_in_trak", "zero_size_child_in_stbl", "zero_size_child_in_udta", "zero_size_child_in_moof",
     "tiny_boxes_top", "tiny_children_in_moov", "many_traks_overlapping_avcc", "many_traks_overlapping_hvcc", "count_max_no_payload",
     "trun_count_max_no_fields", "nested_overrun_chain", "many_meta_rewind", "emsg_many",
@@ -691,6 +701,41 @@ pub fn amplifier(family: &str, target: usize, rng: &mut Rng) -> Vec<u8> {
                 }
             }
             return ser.bytes;
+        }
+        "many_stsd_huge_entry_count" => {
+            // K sample description boxes in a row inside one stbl, each declaring 2^32-1 entries
+            // of which the first (and only) one is of an unsupported kind, and behind the last of
+            // them a stray supported sample entry (tx3g) that lets a walk over "the following
+            // entries" end without an error. A reader that loops over entry_count without
+            // looking at the end of the stsd box walks over all the boxes behind it - K times.
+            let mut m = movie.clone();
+            m.tracks.clear();
+            m.tracks.push(base_trak(rng, 1, Codec::Ttxt));
+            let offs: Vec<Vec<u64>> = m.tracks.iter().map(|t| vec![0u64; t.layout.chunks.len()]).collect();
+            let mut mv = build_moov(&m, &offs, None);
+            let tx3g = refenc::enc_tx3g(&refenc::Tx3gF::default());
+            let pad = (tx3g.size() as usize).max(24) + 8;
+            let k = (target / (16 + 8 + pad)).max(2);
+            if let Some(stbl) = mv.find_mut(&[b"trak", b"mdia", b"minf", b"stbl"]) {
+                let mut fresh: Vec<Part> = Vec::new();
+                for _ in 0..k {
+                    let mut pb = PB::new();
+                    pb.fullbox(0, 0);
+                    pb.u32("entry_count", Kind::Count, 0xFFFF_FFFF);
+                    let mut stsd = BoxT::leaf(b"stsd", pb);
+                    // one entry of an unsupported kind, at least as large as the stray tx3g so that
+                    // no "child larger than parent" check ends the walk early
+                    stsd.push(refenc::free_box(b"hvc1", pad, 0));
+                    fresh.push(Part::Child(stsd));
+                }
+                fresh.push(Part::Child(tx3g));
+                // the K boxes and the stray entry come first; the track's own tables follow
+                let old: Vec<Part> = stbl.parts.drain(..).filter(|p| !matches!(p, Part::Child(c) if &c.typ == b"stsd")).collect();
+                stbl.parts = fresh;
+                stbl.parts.extend(old);
+            }
+            top.push(ftyp);
+            top.push(mv);
         }
         "many_stsd_esds_overrun" => {
             // K sample description boxes in one stbl (the last one wins), each with an esds whose
